@@ -222,7 +222,7 @@ class ASTPrinter:
         return (
             _block_string(value, self.indent)
             if node.block
-            else json.dumps(value)
+            else json.dumps(value, ensure_ascii=False)
         )
 
     def print_list_value(self, node: _ast.ListValue) -> str:
